@@ -44,6 +44,8 @@ inductive RegOp where
   | addRecord (id recId : Nat) (title : List Nat) (rating : Nat)
   | setLimit (id limit : Nat)
   | runSearch (id : Nat) (query : List Nat)
+  /-- `using_store(id, |s| s.clear())` — reachable through the Rust API, not through the WASM bridge -/
+  | clearStore (id : Nat)
 deriving Repr, DecidableEq
 
 /-- an operation is a valid call: no duplicate create, no use of a missing id -/
@@ -54,6 +56,7 @@ def RegOp.valid (g : Registry) : RegOp → Bool
   | .addRecord id _ _ _ => (amGet g.stores id).isSome
   | .setLimit id _ => (amGet g.stores id).isSome && (amGet g.results id).isSome
   | .runSearch id _ => (amGet g.stores id).isSome && (amGet g.results id).isSome
+  | .clearStore id => (amGet g.stores id).isSome
 
 /-- the functions of `lib.rs`; an invalid call (a `panic!`/`unwrap` in the source) leaves the state unchanged -/
 def Registry.step (S : Sorter) (P : Prog) (envs : Nat → Env) (g : Registry) (op : RegOp) : Registry :=
@@ -78,6 +81,10 @@ def Registry.step (S : Sorter) (P : Prog) (envs : Nat → Env) (g : Registry) (o
     | some (lang, st) =>
       let (res, st') := st.searchM S P.K P.order (tokenizeQuery P (envs lang) query)
       { stores := amSet g.stores id (lang, st'), results := amSet g.results id res }
+    | none => g
+  | .clearStore id =>
+    match amGet g.stores id with
+    | some (lang, st) => { g with stores := amSet g.stores id (lang, st.clear) }
     | none => g
 
 /-- `get_result_ids` of the WASM bridge -/
